@@ -114,6 +114,7 @@ def vdbStep (st : VdbSt) : List String → Option (VdbSt × String)
     | none => some ({ st with lastPlan := [] }, "err")
     | some l => some ({ st with ldb := l, lastPlan := planPop st.ldb }, "ok")
   | ["crash-plan"] => some (st, showPlan st.lastPlan)
+  | ["crash-plan-large"] => some (st, "ok")
   | ["sync-digest", _] => some (st, frontierDigest st.ldb)
   | ["vdb-view", name, id] => do
     let id ← parseId id
